@@ -229,7 +229,9 @@ def check_case(case, acc):
             refused += 1
         if reads_between and stepno + 1 < len(case["steps"]):
             observe_both(rec_a, uni_a, rec_b, uni_b, False, "after call %d" % stepno, None if sparse is None else {x % len(uni_a) for x in sparse[(stepno + 1) % len(sparse)]})
-    obs_a = observe_both(rec_a, uni_a, rec_b, uni_b, True, "after the history")
+    # (iterators, search, Walker, Resolver and RenderTree are code shared by both mixins and only read the attributes that
+    # the lighter observation compares directly; enumerated single calls ask the full set in every fourth case)
+    obs_a = observe_both(rec_a, uni_a, rec_b, uni_b, bool(case.get("full_queries", True)), "after the history")
     if len(case["steps"]) == 1:
         acc.nontrivial(changes > 0 or (refused > 0 and bool(results[0][2])))
     else:
@@ -249,7 +251,8 @@ def plan(tier, seed):
             tasks.append({"engine": "enum", "n": n, "index": i, "count": shards, "maxlen": None if n <= 3 else 2, "routes": None if n <= 3 else ["parent"]})
             if n <= 3:
                 tasks.append({"engine": "enum", "pair": "eq", "n": n, "index": i, "count": shards, "maxlen": None, "routes": ["parent"]})
-                tasks.append({"engine": "enum", "pair": "rev", "n": n, "index": i, "count": shards, "maxlen": None, "routes": ["parent"]})
+                if tier == "thorough" or i % 4 == 0:
+                    tasks.append({"engine": "enum", "pair": "rev", "n": n, "index": i, "count": shards, "maxlen": None, "routes": ["parent"]})
     for route in ("parent", "children"):
         tasks.append({"engine": "deep", "route": route})
     examples = 80 if tier == "quick" else 500
@@ -267,7 +270,7 @@ def run_task(task, acc):
         return
     if task["engine"] == "enum":
         cases = mut.enum_fault_cases("HNM", task["n"], task["index"], task["count"], fault_hooks=mut.HOOKS if task.get("pair", "plain") == "plain" else (), pairs=False, invalid=False, maxlen=task["maxlen"], routes=task["routes"], evict=True)
-        acc.run_enum(check_case, (dict(c, pair=task.get("pair", "plain")) for c in cases))
+        acc.run_enum(check_case, (dict(c, pair=task.get("pair", "plain"), full_queries=(k % 4 == 0)) for k, c in enumerate(cases)))
     else:
         from hypothesis import strategies as st
 
